@@ -152,6 +152,7 @@ fn main() {
             println!("{n} seeds written to {}", dir.display());
             exit(0)
         }
+        "deep-child" => exit(pgverif::props::c13::deep_child_main()),
         "c14-child" => exit(pgverif::props::c14::child_main()),
         "c18-child" => exit(pgverif::props::c18::child_main()),
         _ => usage(),
